@@ -142,7 +142,7 @@ def catalogue():
         Op("lt-plain", a.lt, lambda q, o: q < o, ["pt8", "ax0"], "compare", "plain"),
         Op("lt-scalar", a.lt, lambda q, o: q < 0.3, ["pt8", "ptf8", "ax0"], "compare"),
         Op("lt-0dim", a.lt, lambda q, o: q < torch.tensor(-0.2), ["pt8"], "compare"),
-        Op("lt-scalar-after-negation", a.lt, lambda q, o: (q * -1.0) < 0.3, ["pt8", "ptf8", "ax0"], "compare"),
+        Op("lt-scalar-after-negation", a.lt, lambda q, o: (q * -1.0) < 0.3, ["pt8", "ax0"], "compare"),
         Op("relu-after-negation", a.relu, lambda q, o: torch.relu(-1.0 * q), ["pt8", "ax0"], "rescale"),
         Op("lt-same-scale-after-negation", a.lt, lambda q, o: (q * -1.0) < (o * -1.0), ["pt8"], "compare", "same-scale"),
         Op("copy_-quantized", a.copy_, lambda q, o: q.clone().copy_(o), ["pt8", "ptf8"], "move2", "diff-scale"),
